@@ -95,6 +95,19 @@ impl Visitor<Diagnostic> for SymbolTable<'_, Id, DummyNode> {
         ret
     }
 
+    fn visit_configuration_declaration(
+        &mut self,
+        node: &ironplc_dsl::configuration::ConfigurationDeclaration,
+    ) -> Result<(), Diagnostic> {
+        // The global variables of a configuration are visible in a program
+        // organization unit only through VAR_EXTERNAL. They must not end up
+        // in the outermost scope where every unit visited later finds them.
+        self.enter();
+        let ret = node.recurse_visit(self);
+        self.exit();
+        ret
+    }
+
     fn visit_var_decl(&mut self, node: &VarDecl) -> Result<Self::Value, Diagnostic> {
         self.add_if(node.identifier.symbolic_id(), DummyNode {});
         node.recurse_visit(self)
